@@ -21,13 +21,16 @@ ALPHA = {
     "empty-key": ["a=", "b=", "a=1", "b=1", "c=2", "", "x", "  d=", "e= ", "a=1 "],
     "plain": ["a1 x", "a1 y", "b2 x", "  a1", "zz a1", "", "   ", "other", "a12", "A1", "a1", "b2"],
 }
+# the regex is made of white space only (a space, or a tab): it is still a regex, and the keys are its matches
+ALPHA["blank-regex"] = ["a b", "c d", "ab", "", "  x", "a  b", "\tq", "\u00e9 f", "q\tr"]
+ALPHA["tab-regex"] = ALPHA["blank-regex"]
 ALPHA["group2"] = ALPHA["group"]     # same lines, regex with unnamed capturing groups before and after `value`
 ALPHA["optional-group"] = ALPHA["group"]
 ALPHA["with-keep-sorted"] = ALPHA["none"]   # the block also carries keep-sorted (whose own diagnostics are not this check's subject)
 ALPHA["anchored"] = ALPHA["group"]   # same lines, regex anchored at both ends (line terminators must not be part of a line)
 PATTERN = {"none": None, "empty-key": r"^\s*\w+=(?P<value>\w*)", "hash": r"#(?P<value>\d+)", "group": r"id: (?P<value>\w+)", "plain": r"[a-z]\d+", "group2": r"(id|ID): (?P<value>\w+)( x| y)?",
            "anchored": r"^\s*id: (?P<value>\w+)$", "optional-group": r"id: (?P<value>[a-z]+)|\w+",
-           "with-keep-sorted": None}
+           "with-keep-sorted": None, "blank-regex": " ", "tab-regex": "\t"}
 RULE = ("Bounded-exhaustive: every sequence of up to MAXLEN lines over a 12-symbol alphabet (repeated keys, keys differing "
         "only in indentation or trailing blanks, keys differing only outside the regex group, case variants, blank and "
         "non-matching lines) x {no regex, `value` group regex, plain regex, `value` group between unnamed groups}; plus random long blocks with Unicode keys "
@@ -48,7 +51,7 @@ def _attrs(mode, bare):
 def plan(tier, seed):
     jobs = []
     maxlen = MAXLEN[tier]
-    for mode in ("none", "group", "plain", "group2", "anchored", "optional-group", "with-keep-sorted", "hash", "empty-key"):
+    for mode in ("none", "group", "plain", "group2", "anchored", "optional-group", "with-keep-sorted", "hash", "empty-key", "blank-regex", "tab-regex"):
         for bare in ((True, False) if mode in ("none", "with-keep-sorted") else (False,)):
             jobs.append({"k": "enum", "mode": mode, "bare": bare, "len": (0, min(3, maxlen)), "first": None})
             for L in range(4, maxlen + 1):
